@@ -96,7 +96,7 @@ def length_guard_clause(n, store=None):
 
 FIELDS = ['RX', 'BC', 'bc', 'LY', 'MX', 'aA', 'rS']
 import itertools as _it
-POOL = [''.join(p) for n in (1, 2) for p in _it.product('aZ0-_', repeat=n)] + ['N', 'ACGTNACGTN', 'x' * 40]
+POOL = [''.join(p) for n in (1, 2) for p in _it.product('aZ0-_', repeat=n)] + ['N', 'ACGTNACGTN', 'x' * 40, 'ATCACG+CGTGAT']      # last: a dual sequencing index as the shipped index files list them
 BIS = [0, 1, 17, 384, 99999]
 RQS = ['abZ', 'aaa', 'ZZZ', 'AzB']
 
